@@ -302,7 +302,36 @@ def codec_rule(ctx, prop):
                 cfg, adt.split("::")[-1], [(e["wire"], e["fields"]) for e in es],
                 [(d["wire"], d["fields"]) for d in ds]))
             if not echain or not dchain:
-                raise EngineError("CODEC: %s has a branching codec body (unsupported shape)" % adt)
+                # loops / branches between the codec calls: the value-by-value comparison is out
+                # of reach, but a field the encoder never even reads is not in the image
+                read = set()
+
+                def scan(x):
+                    if isinstance(x, dict):
+                        if "l" in x and "p" in x and isinstance(x["l"], int):
+                            ap = E.ap_place(efa, x)
+                            if ap is not None and ap.root == ("arg", 1) and ap.proj:
+                                read.add(str(ap.proj[0]))
+                            return
+                        for k, v in x.items():
+                            if k not in ("sp", "fn_sp", "func"):
+                                scan(v)
+                    elif isinstance(x, list):
+                        for v in x:
+                            scan(v)
+                for bb in efa.blocks:
+                    scan(bb["stmts"])
+                    scan(bb["term"])
+                missing = [fld for fld in (crate.fields(adt) if adt in crate.adts else [])
+                           if fld not in read and fld not in DERIVED_FIELDS.get(adt, {})]
+                for fld in missing:
+                    ctx.ob("CODEC", "%s|%s|persisted|%s" % (cfg, adt, fld), False, locs,
+                           "field `%s` of %s is not written by the encoder (it never reads it): after a "
+                           "round trip it is recomputed or defaulted and can differ from the in-memory "
+                           "value" % (fld, adt.split("::")[-1]))
+                if not missing:
+                    raise EngineError("CODEC: %s has a branching codec body (unsupported shape)" % adt)
+                continue
             # every value is written / read on every successful path: an early `return Ok(..)`
             # between two codec calls leaves the stream out of phase with the other side
             for side, sq, sfa in (("encoder", es, efa), ("decoder", ds, dfa)):
